@@ -1316,8 +1316,253 @@ static bool pcopy_case(Toks& in, Out& impl, Out& ref)
     return true;
 }
 
+
+// =================================================================================================
+// bhist / bmon <family> <cap> <k> <ops...>: the STORED ELEMENT COUNT around the limits of size_type
+// (etl::smallest_size_t<Capacity>: 255 | 256 elements, 65535 | 65536) - coq/C03/ModelSize.v.
+// family = (sv|iv|sk|ss|fs)_(cm|c|i): copy+move / copy-only instrumented element, i = int (trivial storage; sv, iv);
+// capacities 254, 255, 256, 300, 65536, 70000.  Bulk operations keep the histories short:
+//   fil t k x   k times: append x, x + 1, ...   (sv: emplace_back, iv: unchecked_emplace_back, sk: emplace, ss / fs: emplace)
+//   pop t k     k times pop_back() / pop()          clr t          err t f l   erase(begin() + f, begin() + l)
+//   rsz t n     resize(n)                           cpc t / mvc t  { Vec c(vt); } / { Vec c(move(vt)); }
+//   cpa t / mva t   vt = vother / vt = move(vother)            swp   v0.swap(v1)
+//   bhist: impl leg per step `; ok <size> <k> <values at the probe indices below size()> <sum of the values>` for both objects
+//          `/ <calls so far: T(x) T(const&) T(&&) =const& =&& ~T> w <every event so far legal> a <objects alive in the storage
+//          of object 0, of object 1, elsewhere>`; at the end the same after both destructors.  Reference leg na.
+//   bmon:  impl leg = size() of both objects after every step + verdict of the monitor on the whole log incl. the destructors;
+//          reference leg = the sizes of the same history on std::vector<int> (documented preconditions) + `wf 1 alive 0`.
+// =================================================================================================
+struct BStep {
+    std::string op;
+    int t{0};
+    i64 a{0};
+    i64 b{0};
+};
+
+static std::vector<BStep> parse_big(Toks& in)
+{
+    std::vector<BStep> steps;
+    auto k = in.num();
+    for (i64 i = 0; i < k; ++i) {
+        BStep s;
+        s.op = in.str();
+        if (s.op != "swp") { s.t = static_cast<int>(in.num()); }
+        if (s.op == "fil" || s.op == "err") { s.a = in.num(); s.b = in.num(); }
+        else if (s.op == "pop" || s.op == "rsz") { s.a = in.num(); }
+        steps.push_back(s);
+    }
+    return steps;
+}
+
+template <typename T>
+static auto val_of(T const& e) -> int
+{
+    if constexpr (std::is_same_v<T, int>) { return e; } else { return e.v; }
+}
+
+template <typename T>
+inline constexpr bool big_copyable = true;
+template <> inline constexpr bool big_copyable<trk::TrkM> = false;
+
+template <typename Vec, typename T, int K>
+static void big_step(BStep const& s, Vec* (&v)[2])
+{
+    auto& x = *v[s.t];
+    auto& y = *v[1 - s.t];
+    auto const& op = s.op;
+    if (op == "fil") {
+        for (i64 i = 0; i < s.a; ++i) {
+            auto e = static_cast<int>(s.b + i);
+            if constexpr (K == KIv) { (void)x.unchecked_emplace_back(e); }
+            else if constexpr (K == KStack) { x.emplace(e); }
+            else if constexpr (K == KSet || K == KFlat) { (void)x.emplace(e); }
+            else { x.emplace_back(e); }
+        }
+    }
+    else if (op == "pop") {
+        if constexpr (K == KStack) { for (i64 i = 0; i < s.a; ++i) { x.pop(); } }
+        else if constexpr (K == KSv || K == KIv) { for (i64 i = 0; i < s.a; ++i) { x.pop_back(); } }
+    }
+    else if (op == "clr") { if constexpr (K != KStack) { x.clear(); } }
+    else if (op == "err") { if constexpr (K == KSv || K == KSet || K == KFlat) { (void)x.erase(x.begin() + s.a, x.begin() + s.b); } }
+    else if (op == "rsz") { if constexpr (K == KSv) { x.resize(static_cast<std::size_t>(s.a)); } }
+    else if (op == "cpc") { Vec c(x); }
+    else if (op == "mvc") { Vec c(etl::move(x)); }
+    else if (op == "cpa") { x = y; }
+    else if (op == "mva") { x = etl::move(y); }
+    else if (op == "swp") { if constexpr (K == KSv) { v[0]->swap(*v[1]); } }
+}
+
+static i64 const big_probes[] = {0, 1, 254, 255, 256, 257, 65534, 65535, 65536, 65537};
+
+template <typename Vec, typename T, int K, std::size_t N>
+static void run_big(std::vector<BStep> const& steps, Out& impl, bool monitor_only)
+{
+    constexpr bool tracked = !std::is_same_v<T, int>;
+    trk::g_log.clear();
+    alignas(Vec) static unsigned char raw0[sizeof(Vec)];
+    alignas(Vec) static unsigned char raw1[sizeof(Vec)];
+    Vec* v[2] = {new (raw0) Vec{}, new (raw1) Vec{}};
+    trk::Locator where;
+    where.regions.resize(2);
+    for (int c = 0; c < 2; ++c) {
+        where.regions[static_cast<std::size_t>(c)] = trk::Region{reinterpret_cast<char const*>(v[c]->data()), sizeof(T), N};
+    }
+    trk::Monitor mon;
+    mon.lean = true;
+    std::size_t done = 0;
+    i64 calls[8] = {0, 0, 0, 0, 0, 0, 0, 0};
+    auto account = [&] {
+        (void)mon.run(where, trk::g_log, done);
+        for (std::size_t e = done; e < trk::g_log.size(); ++e) { ++calls[trk::g_log[e].kind & 7]; }
+        // the log is consumed: a history appends several 100000 events
+        trk::g_log.clear();
+        done = 0;
+    };
+    auto tail = [&] {
+        long alive[3] = {0, 0, 0};
+        for (auto const& kv : mon.st) {
+            if (kv.second != trk::Dead) { ++alive[kv.first.first == 0 ? 0 : (kv.first.first == 1 ? 1 : 2)]; }
+        }
+        impl.tok("/").num(calls[trk::CV]).num(calls[trk::CC]).num(calls[trk::CM]).num(calls[trk::AC]).num(calls[trk::AM]).num(calls[trk::DT]);
+        impl.tok("w").b(mon.wf).tok("a").num(alive[0]).num(alive[1]).num(alive[2]);
+    };
+    bool stopped = false;
+    std::string sizes;
+    for (auto const& s : steps) {
+        Out stepo;
+        guarded(stepo, [&](Out& o) {
+            big_step<Vec, T, K>(s, v);
+            o.tok("ok");
+        });
+        if constexpr (tracked) { account(); }
+        bool contract = stepo.s == "contract";
+        if (contract) {
+            if (!monitor_only) { impl.tok("; contract"); }
+            stopped = true;
+            break;
+        }
+        if (!monitor_only) {
+            impl.tok("; ok");
+            for (auto* p : v) {
+                auto n = static_cast<i64>(p->size());
+                impl.num(n);
+                std::vector<i64> pv;
+                i64 sum = 0;
+                i64 idx = 0;
+                for (auto const& e : *p) {
+                    sum += val_of(e);
+                    for (auto q : big_probes) { if (q == idx) { pv.push_back(val_of(e)); } }
+                    ++idx;
+                }
+                impl.list(pv).num(sum);
+            }
+            tail();
+        } else {
+            sizes += " " + std::to_string(v[0]->size()) + " " + std::to_string(v[1]->size());
+        }
+    }
+    bool wf_prefix = mon.wf;
+    v[0]->~Vec();
+    v[1]->~Vec();
+    if (stopped) {
+        if (!monitor_only) { impl.tok("; stopped ; wf").b(wf_prefix); }
+        else { impl.tok("contract wf").b(wf_prefix); }
+        return;
+    }
+    if constexpr (tracked) { account(); }
+    if (!monitor_only) {
+        impl.tok("; end");
+        tail();
+    } else {
+        impl.tok("sizes" + sizes).tok("wf").b(mon.wf).tok("alive").num(mon.alive());
+    }
+}
+
+template <typename F>
+static bool with_big_cap(i64 cap, F&& f)
+{
+    switch (cap) {
+    case 254: f.template operator()<254>(); return true;
+    case 255: f.template operator()<255>(); return true;
+    case 256: f.template operator()<256>(); return true;
+    case 300: f.template operator()<300>(); return true;
+    case 65536: f.template operator()<65536>(); return true;
+    case 70000: f.template operator()<70000>(); return true;
+    default: return false;
+    }
+}
+
+template <typename T>
+static bool big_dispatch(std::string const& kind, i64 cap, std::vector<BStep> const& steps, Out& impl, bool monitor_only)
+{
+    if (kind == "iv") {
+        return with_big_cap(cap, [&]<std::size_t N>() { run_big<etl::inplace_vector<T, N>, T, KIv, N>(steps, impl, monitor_only); });
+    }
+    if (kind == "sv") {
+        return with_big_cap(cap, [&]<std::size_t N>() { run_big<etl::static_vector<T, N>, T, KSv, N>(steps, impl, monitor_only); });
+    }
+    if constexpr (!std::is_same_v<T, int>) {
+        // the adapters over a static_vector: one capacity on each side of both limits is enough (the count is the vector's)
+        if (cap != 300 && cap != 70000) { return false; }
+        auto two = [&](auto&& f) { if (cap == 300) { f.template operator()<300>(); } else { f.template operator()<70000>(); } return true; };
+        if (kind == "sk") { return two([&]<std::size_t N>() { run_big<StackObj<T, N>, T, KStack, N>(steps, impl, monitor_only); }); }
+        if (kind == "ss") { return two([&]<std::size_t N>() { run_big<SetObj<T, N>, T, KSet, N>(steps, impl, monitor_only); }); }
+        if (kind == "fs") { return two([&]<std::size_t N>() { run_big<FlatObj<T, N>, T, KFlat, N>(steps, impl, monitor_only); }); }
+    }
+    return false;
+}
+
+static bool big_case(std::string const& op, Toks& in, Out& impl, Out& ref)
+{
+    bool monitor_only = op == "bmon";
+    auto family       = in.str();
+    auto cap          = in.num();
+    auto steps        = parse_big(in);
+    auto kind         = family.substr(0, 2);
+    auto fl           = family.size() > 3 ? family.substr(3) : std::string();
+    bool ok           = false;
+    if (fl == "cm") { ok = big_dispatch<trk::TrkCM>(kind, cap, steps, impl, monitor_only); }
+    else if (fl == "c") { ok = big_dispatch<trk::TrkC>(kind, cap, steps, impl, monitor_only); }
+    else if (fl == "i") { ok = big_dispatch<int>(kind, cap, steps, impl, monitor_only); }
+    if (!ok) { impl.tok("bad-instantiation"); return true; }
+    if (monitor_only) {
+        // the same history on std::vector<int> with the documented preconditions (sets: keys handed over in ascending order)
+        SV v[2];
+        bool dom = true;
+        std::string sizes;
+        for (auto const& s : steps) {
+            auto& x   = v[s.t];
+            auto& y   = v[1 - s.t];
+            auto sz   = static_cast<i64>(x.size());
+            auto room = cap - sz;
+            if (s.op == "fil") {
+                if (s.a < 0) { dom = false; break; }
+                if (kind == "ss" || kind == "fs") { if (!x.empty() && s.a > 0 && x.back() >= s.b) { dom = false; break; } }
+                i64 k = s.a;
+                if (kind == "ss") { k = std::min(k, room); }      // static_set ignores an insert into a full set
+                if (k > room) { dom = false; break; }
+                for (i64 i = 0; i < k; ++i) { x.push_back(static_cast<int>(s.b + i)); }
+            }
+            else if (s.op == "pop") { if (s.a < 0 || s.a > sz || kind == "ss" || kind == "fs") { dom = false; break; } x.resize(static_cast<std::size_t>(sz - s.a)); }
+            else if (s.op == "clr") { if (kind == "sk") { dom = false; break; } x.clear(); }
+            else if (s.op == "err") { if (kind == "sk" || kind == "iv" || s.a < 0 || s.a > s.b || s.b > sz) { dom = false; break; } x.erase(x.begin() + s.a, x.begin() + s.b); }
+            else if (s.op == "rsz") { if (kind != "sv" || s.a < 0 || s.a > cap) { dom = false; break; } x.resize(static_cast<std::size_t>(s.a)); }
+            else if (s.op == "cpc" || s.op == "mvc") { if (kind == "iv" && s.op == "mvc") { x.clear(); } }
+            else if (s.op == "cpa") { x = y; }
+            else if (s.op == "mva") { x = y; if (kind == "iv") { y.clear(); } }
+            else if (s.op == "swp") { if (kind != "sv") { dom = false; break; } v[0].swap(v[1]); }
+            else { dom = false; break; }
+            sizes += " " + std::to_string(v[0].size()) + " " + std::to_string(v[1].size());
+        }
+        if (dom) { ref.tok("sizes" + sizes).tok("wf 1 alive 0"); }
+    }
+    return true;
+}
+
 bool vh::run_case(std::string const& op, Toks& in, Out& impl, Out& ref)
 {
+    if (op == "bhist" || op == "bmon") { return big_case(op, in, impl, ref); }
     if (op == "pcopy") { return pcopy_case(in, impl, ref); }
     if (op == "pown") { return pown_case(in, impl, ref); }
     if (op == "uhist" || op == "umon") { return umem_case(op, in, impl, ref); }
